@@ -159,9 +159,13 @@ def expr_as_matrix(expr: Callable, *inputs, res_like: "MultiVector" = None):
     if res_like is not None:
         y = alg.multivector({k: sympy.sympify(getattr(y, alg.bin2canon[k])) for k in res_like.keys()})
 
-    A = sympy.zeros(len(y), len(x)) if not numerical else np.zeros((len(y), len(x)))
+    A = sympy.zeros(len(y), len(x))
     for i, (blade_y, yi) in enumerate(y.items()):
         cv = sympy.collect(yi.expand(), x.values())
         for j, (blade_x, xj) in enumerate(x.items()):
             A[i, j] = cv.coeff(xj)
+    if numerical and all(entry.is_number for entry in A):
+        # Only numbers are left: return a numpy array, complex when the entries are.
+        dtype = float if all(entry.is_real for entry in A) else complex
+        A = np.array(A.tolist(), dtype=dtype).reshape(len(y), len(x))
     return A, y
